@@ -28,18 +28,23 @@ func (c ComplexAndPlanner) Process(ctx *shared.PlannerContext) (sql.ISelect, err
 			With(with).
 			Select(sql.NewSimpleCol("trace_id", "trace_id"),
 				sql.NewSimpleCol("_span_id", "span_id"),
-				sql.NewSimpleCol("max_timestamp_ns", "max_timestamp_ns")).
+				sql.NewSimpleCol("max_timestamp_ns", "max_timestamp_ns"),
+				sql.NewSimpleCol(fmt.Sprintf("%d", i), "_operand")).
 			From(sql.NewWithRef(with)).
 			Join(sql.NewJoin("array", sql.NewSimpleCol(with.GetAlias()+".span_id", "_span_id"), nil))
 	}
 
+	// `{A} && {B}` keeps the traces matched by BOTH selectors, whichever spans matched each of them: the rows of all
+	// operands are put together and a trace stays when every operand contributed to it.  (A row-wise INTERSECT of
+	// (trace_id, span_id, max_timestamp_ns) only kept traces where the very same span matched both selectors.)
 	return sql.NewSelect().
 		Select(sql.NewSimpleCol("trace_id", "trace_id"),
 			sql.NewSimpleCol("groupUniqArray(100)(span_id)", "span_id")).
-		From(sql.NewCol(&intersect{
+		From(sql.NewCol(&union{
 			selects: selects,
 		}, c.Prefix+"a")).
 		GroupBy(sql.NewRawObject("trace_id")).
+		AndHaving(sql.Eq(sql.NewRawObject("count(distinct _operand)"), sql.NewIntVal(int64(len(selects))))).
 		OrderBy(sql.NewOrderBy(sql.NewRawObject("max(max_timestamp_ns)"), sql.ORDER_BY_DIRECTION_DESC)), nil
 }
 
